@@ -563,11 +563,20 @@ class UDPTunnel(_Tunnel):
             tunnelling_request=frame,
         )
         try:
-            await tunnelling.request()
+            ack = await tunnelling.request()
         except RequestResponseError as err:
             raise TunnellingAckError(
                 f"{err} for frame with sequence_counter={frame.sequence_counter}"
             ) from err
+        # only the acknowledgement of this very request confirms it
+        if (
+            ack.communication_channel_id != frame.communication_channel_id
+            or ack.sequence_counter != frame.sequence_counter
+        ):
+            raise TunnellingAckError(
+                f"TunnellingAck {ack} does not acknowledge frame with "
+                f"sequence_counter={frame.sequence_counter}"
+            )
 
     ####################
     #
